@@ -203,6 +203,14 @@ class AuditRun:
                     for pos, i in enumerate(order):
                         rk[i] = pos
                     nums = rk
+                if case["numbering"]["mode"] == "near":
+                    # distinct 256-bit numbers that agree in their leading bits (they are equal as floats)
+                    order = sorted(range(len(nums)), key=lambda i: nums[i])
+                    base = (case["numbering"]["seed"] << 180) | (1 << 250)
+                    nn = [0] * len(nums)
+                    for pos, i in enumerate(order):
+                        nn[i] = base + 3 * pos
+                    nums = nn
                 self.call("assign_sample_nums", ns.CVR.assign_sample_nums, self.cvr_list, SchedPrng(nums))
             nums = [c.sample_num for c in self.cvr_list]
             if len(set(nums)) != len(nums):
@@ -213,6 +221,11 @@ class AuditRun:
                          "margins": {f"{cid}/{k}": a.margin for cid, con in self.contests.items()
                                      for k, a in con.assertions.items()}})
         self.notify("after_setup")
+        if case.get("initial_estimate") and not self.polling and self.use_style and not case.get("margins_via_tally"):
+            # (the sample-size routines document that test.u must have been set; margins from tallies do not set it)
+            # as the worked notebooks do before drawing anything: ask for the initial sample sizes
+            self.call("Audit.find_sample_size(initial)", self.audit.find_sample_size, self.contests, cvrs=self.cvr_list, fatal=False)
+            out.probe("initial sample size estimated before the first draw")
 
     # ------------------------------------------------------------------ rounds
     def sizes_for(self, rnd):
@@ -227,7 +240,19 @@ class AuditRun:
 
     def mvr_for(self, cvr_or_id):
         rec = self.case["mvr"][cvr_or_id]
-        m = self.ns.CVR(id=cvr_or_id, votes=copy.deepcopy(rec["votes"]), phantom=bool(rec["phantom"]))
+        if self.case.get("mvr_via_from_dict"):
+            # the manual records arrive as dicts (the documented route, CVR.from_dict); the 'card not found' flag is
+            # whatever the auditors' tool wrote: a bool, a numpy bool, or 1
+            flag = bool(rec["phantom"])
+            k = sum(map(ord, str(cvr_or_id))) % 3
+            d = {"id": cvr_or_id, "votes": copy.deepcopy(rec["votes"])}
+            if flag:
+                d["phantom"] = [True, np.True_, 1][k]
+            elif k == 0:
+                d["phantom"] = False
+            m = self.ns.CVR.from_dict([d])[0]
+        else:
+            m = self.ns.CVR(id=cvr_or_id, votes=copy.deepcopy(rec["votes"]), phantom=bool(rec["phantom"]))
         return m, rec.get("faults", [])
 
     def round(self, r, rnd):
@@ -254,6 +279,20 @@ class AuditRun:
             out.probe("margins revised between rounds")
             out.shape("remargin")
             self.notify("after_remargin", r)
+        if rnd.get("refresh") and not self.polling and not rnd.get("rebuild"):
+            # housekeeping a user may repeat between rounds; none of it may change anything: parameters re-checked,
+            # ONEAudit batch means and CVR-based margins computed again from the same CVRs
+            self.call("check_audit_parameters", self.audit.check_audit_parameters, self.contests, fatal=False)
+            if self.world["audit_type"] == W.ONEAUDIT:
+                for con in self.contests.values():
+                    for asn in con.assertions.values():
+                        self.call("set_tally_pool_means", asn.assorter.set_tally_pool_means, cvr_list=self.cvr_list,
+                                  tally_pools=self.pools, use_style=self.use_style)
+            if not self.case.get("margins_via_tally"):
+                self.call("set_all_margins_from_cvrs", ns.Assertion.set_all_margins_from_cvrs, audit=self.audit,
+                          contests=self.contests, cvr_list=self.cvr_list)
+            out.probe("pool means / margins recomputed between rounds")
+            out.shape("refresh")
         sizes = self.sizes_for(rnd)
         if (rnd.get("size_from_estimate") and r > 0 and not self.polling and self.use_style and self.data_hist
                 and not rnd.get("rebuild")):
@@ -306,7 +345,11 @@ class AuditRun:
                 arg = list(prev)
             idx = self.call("consistent_sampling", ns.CVR.consistent_sampling, cvr_list=self.cvr_list,
                             contests=self.contests, sampled_cvr_indices=arg)
-            idx = [int(i) for i in idx]
+            try:
+                idx = [int(i) for i in idx]
+            except Exception as e:  # not a list of indices at all: nothing downstream can be run
+                out.raised("consistent_sampling(result)", e)
+                raise Abort("sampler returned no index list")
             out.ev("selected", idx)
             self.notify("after_draw", r, idx, prev, sizes)
             self.idx_hist.append(idx)
@@ -350,7 +393,13 @@ class AuditRun:
         p_max = self.call("set_p_values", ns.Assertion.set_p_values, contests=self.contests, mvr_sample=mvr_sample,
                           cvr_sample=cvr_sample)
         done = self.call("summarize_status", self.audit.summarize_status, self.contests)
-        ps = {(cid, key): float(asn.p_value) for cid, con in self.contests.items() for key, asn in con.assertions.items()}
+        try:
+            ps = {(cid, key): float(asn.p_value) for cid, con in self.contests.items() for key, asn in con.assertions.items()}
+            p_max = float(p_max)
+        except Exception as e:
+            out.raised("set_p_values(result)", e)
+            self.notify("on_malformed", "p-values are not numbers")
+            raise Abort("p-values are not numbers")
         self.p_hist.append(ps)
         self.proved_hist.append({(cid, key): bool(asn.proved) for cid, con in self.contests.items()
                                  for key, asn in con.assertions.items()})
